@@ -4,7 +4,7 @@ CONSTANT CoefSel = "small"
 CONSTANT XIds = {1, 7}
 CONSTANT ZIds = {1}
 CONSTANT HIds = {7}
-CONSTANT Lays = {2, 3, 4, 5}
+CONSTANT Lays = {2, 3, 4, 5, 6, 7, 8}
 CONSTANT Mod = 12
 CONSTANT TsMod = 24
 INIT Init
@@ -31,5 +31,6 @@ INVARIANT C13_TsetWLS
 INVARIANT C13_FitThenEvaluate
 INVARIANT C13_XNormLaws
 INVARIANT C13_GridLaws
+INVARIANT C13_RowIndependence
 INVARIANT C13_IgnoreJump
 CHECK_DEADLOCK FALSE
